@@ -205,6 +205,26 @@ class C16Oracle(Oracle):
                               {"real": got[:12], "model_from_start": m.s[i:i + len(got)][:12],
                                "len_real": len(got), "acceptable_lengths": sorted(okl), "args": out.args})
             return
+        if name == "audio.convertToBytes":
+            samples, width = out.args
+            if not out.ok:
+                self.fail(name, f"raised-{type(out.exc).__name__}/w{width}", {"exc": repr(out.exc), "samples": samples[:8]})
+            if bytes(out.result) != enc_samples(samples, width):
+                got = dec_samples(bytes(out.result), width) if len(out.result) % width == 0 else None
+                self.fail(name, f"bytes-differ/w{width}", {"samples": samples[:12], "decoded_result": (got or [])[:12]})
+            back = list(audio.convertFromBytes(out.result, width))
+            if back != list(samples):
+                self.fail(name, f"roundtrip-not-identity/w{width}", {"samples": samples[:12], "back": back[:12]})
+            return
+        if name == "audio.convertFromBytes":
+            b, width = out.args
+            if not out.ok:
+                self.fail(name, f"raised-{type(out.exc).__name__}/w{width}", {"exc": repr(out.exc)})
+            if list(out.result) != dec_samples(b, width):
+                self.fail(name, f"samples-differ/w{width}", {"real": list(out.result)[:12], "model": dec_samples(b, width)[:12]})
+            if audio.convertToBytes(tuple(out.result), width) != b:
+                self.fail(name, f"roundtrip-not-identity/w{width}", {})
+            return
         if name == "audio.getDuration":
             src = getattr(self, "saved", {}).get(out.args[0])
             if src is not None:
@@ -318,6 +338,12 @@ def generate(run, rng):
             run.do({"op": "wav.duration", "recv": h})
         elif r < 0.82:
             run.do({"op": "wav.new", "recv": h, "out": w.new_handle()})
+        elif r < 0.86:
+            smp = _samples(rng, width, rng.randrange(0, 13))
+            if rng.random() < 0.5:
+                run.do({"op": "audio.convertToBytes", "a": [smp, width]})
+            else:
+                run.do({"op": "audio.convertFromBytes", "a": [{"$b": enc_samples(smp, width).hex()}, width]})
         elif cfg["files"]:
             fileno += 1
             path = f"/simfs/c16_{fileno if rng.random() < 0.7 else 1}.wav"
